@@ -164,6 +164,9 @@ func (e *escaper) escapeAction(c context, n *parse.ActionNode) context {
 		}
 	}
 	e.editActionNode(n, s)
+	if c.state == stateAttr && c.attr.value == "" {
+		c.attr.dynamicStart = true
+	}
 	return c
 }
 
@@ -320,6 +323,9 @@ func join(a, b context, node parse.Node, nodeName string) context {
 	a.attr.names = joinNames(a.attr.name, b.attr.name, a.attr.names, b.attr.names)
 	if a.attr.value != b.attr.value {
 		a.attr.ambiguousValue = true
+	}
+	if b.attr.dynamicStart {
+		a.attr.dynamicStart = true
 	}
 
 	if a.eq(b) {
